@@ -17,7 +17,7 @@ EXPLANATION = (
     "parameter) is a violation.  Also decided: the crate call graph reachable from the reader is acyclic (no recursion, bounded "
     "stack use by the crate's code); every CFG cycle in the reader's bodies contains a call that consumes input "
     "(Reader::read_event_into) or advances a finite iterator; the loop has an exit to the graph constructor; the directedness "
-    "passed to the constructor depends on the document's edgedefault attribute with matching polarity.  NOT decided: that quick-xml "
+    "passed to the constructor depends on the document's edgedefault attribute with matching polarity.  R-C19-7: a trip through the event loop that appends a node in the Start handler takes the \"edge\" value away from the last-element marker.  NOT decided: that quick-xml "
     "itself never panics or loops; that the returned graph contains exactly the document's elements (value-level)."
 )
 TRUSTED = [
@@ -182,6 +182,22 @@ def run(ctx):
                     "the reader consumes an extra event in the handler of %s: after a self-closed element (Event::Empty) that event is the FOLLOWING element of the document, which is silently dropped from the graph" % (sorted(vs) or "a catch-all arm"), loc_str(t.span))
     ctx.floor("R-C19-6", "lookahead_reads", n_look, 1)
 
+    def event_kinds_at(sp):
+        """variants of the outermost event arm whose body contains this span (None: not inside an event arm)"""
+        arms_ = []
+        for m_ in ev_matches:
+            for a_ in m_["arms"]:
+                if inside(sp, a_["body_span"]):
+                    vs_ = set()
+                    event_variants(a_["pat"], vs_)
+                    if vs_ or a_["pat"] == "_":
+                        arms_.append((a_, vs_))
+        if not arms_:
+            return None
+        return max(arms_, key=lambda x: (x[0]["body_span"]["eline"] - x[0]["body_span"]["line"], x[0]["body_span"]["ecol"]))[1]
+
+    marker_scope(ctx, prog, flows, root, event_kinds_at)
+
     # ------------------------------------------------------------------ R-C19-4 declared directedness
     ctx.rule("R-C19-4", "the constructor's specs.directed depends on the document's edgedefault attribute; literal 'directed' selects true")
     fl = flows.of(root)
@@ -329,6 +345,93 @@ def last_mut_invariant(ctx, prog, flows, root, groups):
         ctx.require(ok3 and ok4, "R-C19-1b", key,
                     "marker is set to \"edge\" at %d place(s), each followed by a successful push onto `%s` before the loop continues; `%s` is never shrunk or reassigned" % (n_defs, b.local_name(recv), b.local_name(recv)),
                     "the invariant behind last_mut().unwrap() is broken: marker set without a successful push at %s; shrinking ops %s; reassignments %d" % (bad, [e[3] for e in shrink], len(reassigned)), s.site())
+
+
+def marker_scope(ctx, prog, flows, root, event_kinds_at):
+    """R-C19-7.  The reader remembers, in a string variable, that the element most recently opened is an <edge>; a later
+    <data> with the weight key is then written into the LAST EDGE.  "The graph contains exactly the edge elements of
+    the document" needs that memory to end when another element is appended: every trip through the event loop that
+    appends a NODE that can have children (the handler of Event::Start; a self-closed element has none) must pass an
+    assignment that takes the "edge" value away, otherwise the <data> children of a node that follows an edge overwrite
+    that edge's weight (or turn a weightless edge into a weighted one, or refuse a document because a node's text is
+    not a number)."""
+    effects = Effects(prog, flows)
+    ctx.rule("R-C19-7", "every pass of the event loop that appends a node with children (Event::Start) passes an assignment that takes the \"edge\" value away from the last-element marker")
+    fl = flows.of(root)
+    b = root
+    markers = set()
+    for l in range(b.arg_count + 1, len(b.locals)):
+        if b.local_ty(l) != "std::string::String" or b.local_name(l) is None:
+            continue
+        for (dbb, d) in b.assigns_to(l):
+            ops = d.rv.ops if getattr(d, "rv", None) is not None else getattr(d, "args", [])
+            reads = set()
+            for o in ops:
+                reads |= set(fl._op_reads(o))
+            val = fl.slice_local(reads or {("CALL", dbb)}, data_only=True)
+            if any(n[0] == "CONST" and "\"edge\"" in n[1] for n in val):
+                markers.add(l)
+    if not markers:
+        ctx.note("the reader keeps no \"edge\" marker any more: R-C19-7 has nothing to check")
+        return
+    headers = [blk.i for blk in b.normal_blocks() if blk.term.k == "call" and blk.term.callee and blk.term.callee.short.endswith("read_event_into")]
+    loops = [h for h in headers if h in b.reachable_from(h, strict=True)] if "strict" in b.reachable_from.__code__.co_varnames else headers
+    n = 0
+    for m in sorted(markers):
+        kills = set()
+        for (dbb, d) in b.assigns_to(m):
+            ops = d.rv.ops if getattr(d, "rv", None) is not None else getattr(d, "args", [])
+            reads = set()
+            for o in ops:
+                reads |= set(fl._op_reads(o))
+            val = fl.slice_local(reads or {("CALL", dbb)}, data_only=True)
+            consts = [n_[1] for n_ in val if n_[0] == "CONST" and "\"" in n_[1]]
+            if consts and not any("\"edge\"" in c for c in consts):
+                kills.add(dbb)
+        for t in b.calls():
+            tp = t.callee.target_path(prog) if t.callee else None
+            if not tp or not t.args:
+                continue
+            pushes = [e for e in effects.events(tp) if e[2][0] == "P" and e[2][1] == 1 and e[3] == "Vec::push"]
+            if not pushes:
+                continue
+            tgt = [o for o in fl.mut_reach(t.args[0]) if o[0] == "L" and "node::Node<" in b.local_ty(o[1])]
+            if not tgt:
+                continue
+            kinds = event_kinds_at(t.at or t.span)
+            if kinds is not None and "Start" not in kinds:
+                continue  # a self-closed <node/> has no children: what follows it is not its content
+            n += 1
+            if kinds is None:
+                ctx.undecided("R-C19-7", "node-append|%s|%d" % (b.local_name(m), n), "the node-appending call %s is not inside an arm of the event match; whether its element can have children is not decided" % t.callee.short.split("::")[-1], loc_str(t.span))
+                continue
+            # one trip: header -> .. -> the appending call -> .. -> header, none of it through a kill
+            bad_h = None
+            for h in headers:
+                fwd = set()
+                st = list(b.succ(h))
+                while st:
+                    x = st.pop()
+                    if x in fwd or x in kills or x == h:
+                        continue
+                    fwd.add(x)
+                    st.extend(b.succ(x))
+                if t.bb not in fwd:
+                    continue
+                seen = set()
+                st = list(b.succ(t.bb))
+                while st:
+                    x = st.pop()
+                    if x in seen or x in kills:
+                        continue
+                    seen.add(x)
+                    if x == h:
+                        bad_h = h
+                        break
+                    st.extend(b.succ(x))
+            ctx.require(bad_h is None and bool(kills), "R-C19-7", "node-append|%s|%d" % (b.local_name(m), n), "the pass that appends a node through %s resets `%s`" % (t.callee.short.split("::")[-1], b.local_name(m)),
+                        "a pass of the event loop appends a node (%s) and comes back to the next event with `%s` possibly still \"edge\": the <data> children of that node are then applied to the previous EDGE (its weight is overwritten, or a non-numeric node value makes the whole document an error)" % (t.callee.short.split("::")[-1], b.local_name(m)), loc_str(t.span))
+    ctx.floor("R-C19-7", "node_appending_calls", n, 1)
 
 
 def is_tainted(flows, root, b, fl, s):
